@@ -1,6 +1,7 @@
 package vh
 
 import (
+	"strings"
 	"context"
 	"crypto/rand"
 	"crypto/tls"
@@ -40,7 +41,8 @@ var (
 	farm     *TLSFarm
 )
 
-var caKeys = map[string]string{"caA": "p256a", "caB": "p384b", "caForeign": "p256c", "caClients": "p521b"}
+// caA2 carries the same subject name as caA under another key (the successor of a CA after a key roll-over).
+var caKeys = map[string]string{"caA": "p256a", "caB": "p384b", "caForeign": "p256c", "caClients": "p521b", "caA2": "p521a"}
 
 // Farm returns the process-wide TLS material (files under a temp dir).
 func Farm() *TLSFarm {
@@ -51,7 +53,11 @@ func Farm() *TLSFarm {
 		}
 		f := &TLSFarm{Dir: d, cas: map[string]*x509.Certificate{}, serverCert: map[string]tls.Certificate{}}
 		for name, key := range caKeys {
-			c, der, err := MakeCert(CertSpec{CN: "verif " + name, Key: key, IsCA: true, Serial: 11})
+			cn := "verif " + name
+			if name == "caA2" {
+				cn = "verif caA"
+			}
+			c, der, err := MakeCert(CertSpec{CN: cn, Key: key, IsCA: true, Serial: 11})
 			if err != nil {
 				panic(err)
 			}
@@ -60,6 +66,7 @@ func Farm() *TLSFarm {
 		}
 		// a bundle file holding two CAs, and an unparsable file
 		os.WriteFile(filepath.Join(d, "bundleAB.crt"), append(PEMCert(f.cas["caA"].Raw), PEMCert(f.cas["caB"].Raw)...), 0o644)
+		os.WriteFile(filepath.Join(d, "bundleAA2.crt"), append(PEMCert(f.cas["caA"].Raw), PEMCert(f.cas["caA2"].Raw)...), 0o644)
 		// client certificate (issued by caClients)
 		_, der, err := MakeCert(CertSpec{CN: "verif ysshra client", Key: "p256b", Issuer: f.cas["caClients"], IssuerKey: caKeys["caClients"], Serial: 21,
 			Mutate: func(t *x509.Certificate) { t.ExtKeyUsage = []x509.ExtKeyUsage{x509.ExtKeyUsageClientAuth} }})
@@ -119,6 +126,8 @@ func (f *TLSFarm) ServerCert(identity, ip string) tls.Certificate {
 		spec.Issuer, spec.IssuerKey = f.cas["caA"], caKeys["caA"]
 	case "caB":
 		spec.Issuer, spec.IssuerKey = f.cas["caB"], caKeys["caB"]
+	case "caA2":
+		spec.Issuer, spec.IssuerKey = f.cas["caA2"], caKeys["caA2"]
 	case "foreign":
 		spec.Issuer, spec.IssuerKey = f.cas["caForeign"], caKeys["caForeign"]
 	case "clientsca": // issued by the CA that issues the RA's CLIENT certificate (never a configured server CA)
@@ -161,7 +170,7 @@ func (f *TLSFarm) ServerCert(identity, ip string) tls.Certificate {
 type CAServerSpec struct {
 	IP       string
 	Identity string // see ServerCert; "" = caA
-	// Behaviour: sign (fixed KeyText) | signreq (certifies the request's key) | rpcerr | empty | unparsable | hang | nolistener
+	// Behaviour: sign (fixed KeyText) | signreq (certifies the request's key) | flaky (odd calls fail with Code, even calls sign) | rpcerr | empty | unparsable | hang | nolistener
 	Behaviour string
 	Code      int
 	KeyText   string // reply of a signing server
@@ -173,6 +182,12 @@ type CAServerSpec struct {
 	// ClientAuth: none | request | require
 	ClientAuth string
 	HangFor    time.Duration
+	// ReplyCerts (signreq): certificates per reply (0 = 1); BigAt, when > 0, makes the BigAt-th of them
+	// (1-based) a certificate whose text line is longer than 64 KiB (a padded extension).
+	ReplyCerts int
+	BigAt      int
+	// BigPad: size of the padding extension of the big certificate in bytes (0 = 50 KiB)
+	BigPad int
 }
 
 // CASeen is one RPC received by a fake CA endpoint.
@@ -181,6 +196,8 @@ type CASeen struct {
 	Req        *pb.SSHCertificateSigningRequest
 	TLSVersion uint16
 	PeerCerts  [][]byte
+	// Signed: the endpoint answered this call with certificates
+	Signed bool
 }
 
 // CAServer is a running fake endpoint.
@@ -213,10 +230,23 @@ func (s *CAServer) PostUserSSHCertificate(ctx context.Context, req *pb.SSHCertif
 	s.smu.Unlock()
 	s.mu.Lock()
 	s.Seen = append(s.Seen, seen)
+	nth := len(s.Seen)
 	s.mu.Unlock()
 	behaviour, code := s.Spec.Behaviour, s.Spec.Code
 	if s.grp != nil && s.grp.Round() > 0 && s.Spec.Later != "" {
 		behaviour, code = s.Spec.Later, s.Spec.LaterCode
+	}
+	if behaviour == "flaky" {
+		// every odd call (first, third, ...) fails, every even call signs
+		behaviour = "rpcerr"
+		if nth%2 == 0 {
+			behaviour = "sign"
+		}
+	}
+	if behaviour == "sign" || behaviour == "signreq" {
+		s.mu.Lock()
+		s.Seen[nth-1].Signed = true
+		s.mu.Unlock()
 	}
 	switch behaviour {
 	case "rpcerr":
@@ -245,12 +275,31 @@ func (s *CAServer) PostUserSSHCertificate(ctx context.Context, req *pb.SSHCertif
 			return nil, status.Error(codes.InvalidArgument, "verif: bad public key")
 		}
 		now := uint64(time.Now().Unix())
-		c := &ssh.Certificate{Key: pub, Serial: uint64(seen.Seq), CertType: ssh.UserCert, KeyId: req.KeyId, ValidPrincipals: req.Principals,
-			ValidAfter: now - 60, ValidBefore: now + req.Validity, Permissions: ssh.Permissions{Extensions: req.Extensions}}
-		if err := c.SignCert(rand.Reader, SSHSigner("ed25519a")); err != nil {
-			return nil, status.Error(codes.Internal, err.Error())
+		n := s.Spec.ReplyCerts
+		if n <= 0 {
+			n = 1
 		}
-		return &pb.SSHKey{Key: string(ssh.MarshalAuthorizedKey(c))}, nil
+		text := ""
+		for i := 0; i < n; i++ {
+			exts := map[string]string{}
+			for k, v := range req.Extensions {
+				exts[k] = v
+			}
+			if s.Spec.BigAt == i+1 {
+				pad := s.Spec.BigPad
+				if pad <= 0 {
+					pad = 50 << 10
+				}
+				exts["verif-pad@example.com"] = strings.Repeat("p", pad)
+			}
+			c := &ssh.Certificate{Key: pub, Serial: uint64(seen.Seq*16 + i), CertType: ssh.UserCert, KeyId: req.KeyId, ValidPrincipals: req.Principals,
+				ValidAfter: now - 60, ValidBefore: now + req.Validity, Permissions: ssh.Permissions{Extensions: exts}}
+			if err := c.SignCert(rand.Reader, SSHSigner("ed25519a")); err != nil {
+				return nil, status.Error(codes.Internal, err.Error())
+			}
+			text += string(ssh.MarshalAuthorizedKey(c))
+		}
+		return &pb.SSHKey{Key: text}, nil
 	}
 	return &pb.SSHKey{Key: s.Spec.KeyText}, nil
 }
